@@ -407,12 +407,11 @@ func (lb *LoadBalancer) processHealthCheckResponse(backend *Backend, resp *http.
 		return
 	}
 	backend.IsHealthy = true
-	backend.Mutex.Unlock()
-
-	// Update metrics to reflect healthy status
+	// Update metrics inside the same critical section as the flag (see IsBackendHealthy)
 	if lb.metricsCollector != nil {
 		lb.metricsCollector.UpdateBackendHealth(backend.Name, true)
 	}
+	backend.Mutex.Unlock()
 
 	if wasUnhealthy {
 		logging.L().Info().Str("backend", backend.Name).Msg("backend marked healthy via active check")
@@ -559,12 +558,12 @@ func (lb *LoadBalancer) IsBackendHealthy(backend *Backend) bool {
 		// Double-check after acquiring write lock to prevent race condition
 		if !backend.IsHealthy && time.Now().After(backend.UnhealthyUntil) {
 			backend.IsHealthy = true
-			backend.Mutex.Unlock()
-
-			// Update metrics to reflect healthy status
+			// The metrics mirror changes inside the same critical section as the flag (as in
+			// MarkBackendUnhealthy): updated after the unlock it could overwrite a newer ejection.
 			if lb.metricsCollector != nil {
 				lb.metricsCollector.UpdateBackendHealth(backend.Name, true)
 			}
+			backend.Mutex.Unlock()
 
 			logging.L().Info().Str("backend", backend.Name).Msg("backend marked healthy")
 			return true
